@@ -126,6 +126,10 @@ func c10Run(rc *sim.RunCtx) {
 	}
 
 	sess, sw := newSession()
+	sw.RC = rc // count the host faults of the session side only
+	for range frags[1:] {
+		rc.Fault("fragment-cut")
+	}
 	compared := 0
 	for i, f := range frags {
 		got := evalOne(sess, sw, f)
@@ -201,9 +205,9 @@ func init() {
 		Simulated:   []string{"fragment boundaries", "host functions and their failures"},
 		Runs: func(tier string) int {
 			if tier == "thorough" {
-				return 200000
+				return 2000000
 			}
-			return 2500
+			return 30000
 		},
 		WallCap: func(tier string) float64 {
 			if tier == "thorough" {
